@@ -787,13 +787,19 @@ def check_c06(world):
         exp_inputs, _ = model.evaluate(msc)
     except Exception:
         exp_inputs = {}
+    try:
+        exp_all, _ = model.evaluate(msc, only_sync=False)      # ephemeral sources taken as if they passed every frame
+    except Exception:
+        exp_all = {}
     period = max([s.get('period_ns', 0) for s in nodes.values() if s.get('src')] or [0])
     allow = {}
     for n in sync_nodes:
         if n not in exp_inputs:
             # fed (directly or not) by a filter whose own sources are all ephemeral: outside the synchronized model, but a
             # synchronized consumer all the same - frames must keep coming (generously thinned: skip rules, side pace)
-            allow[n] = H + 8 * period
+            # - unless the skip rules along the way compose to "never" (e.g. odd ids dropped, even ids deferred to None)
+            cnt = len(exp_all.get(n, ())) if n in exp_all else NF
+            allow[n] = None if cnt == 0 else H + max(8, NF // cnt) * period
             continue
         cnt = len(exp_inputs.get(n, ()))
         allow[n] = None if cnt == 0 else H + (NF // cnt) * period
